@@ -9,9 +9,10 @@ WHAT = {
  'D30': 'a target spanning several paragraphs or runs that are not direct children of one paragraph scrambles the paragraphs / nests marks',
  'D34': 'an insertion point adjacent to a tracked change is anchored on the run inside that change: w:ins nested in another mark',
  'D37': 'occupied ranges are kept in coordinates of a map that is rebuilt after every applied edit: duplicate / overlapping targets after an applied edit are not recognised as conflicts',
+ 'D56': 'an edit that deletes the whole text of a document part (body, header, footer) leaves that part empty; the projection omits an empty part together with its separator, so the accepted view of the committed document lacks the blank block the preview shows',
  'D51': 'overlaps between heuristic edits are decided on raw-view match positions only: an edit that is located through the accepted view (its target spans a tracked change or a comment wrapper) has no planned range, so a second edit whose target overlaps it is applied as well',
  'D39': 'a later edit of a batch is matched against the metadata text ([Chg:n] author, wrappers) that an earlier edit of the same batch added to the raw view',
- 'D40': 'a target that also occurs in virtual text of the raw view (comment metadata, author names, markers) is matched there first; the edit is applied next to that place',
+ 'D40': 'the occurrence of a target that the matcher takes (the first one touching document text and no tracked deletion) also covers virtual text (separator, marker, comment or change metadata), or the target exists in virtual text only: the virtual part cannot be edited, the edit lands on the real part only, and the preview marks a target the commit skips',
  'D46': 'an edit whose new text differs from its target only by line breaks is reported applied but leaves nothing except an empty w:ins; the comment it carries is anchored there and never displayed',
  'D32': 'when trimming leaves only virtual markers as target no run is resolved and the edit is reported skipped',
 }
@@ -30,7 +31,6 @@ def classify(c, fail, exception_ok=False, meta_region=False, block_region=False)
         return (None, None) if exception_ok else (fail, ('D26', WHAT['D26']))
     if code == 0:
         if block_region and any(block_text(e[1]) for e in c.get('edits', [])): return (fail, ('D10', WHAT['D10']))
-        if meta_region and len(c.get('edits', [])) > 1 and any(meta_like(e[0]) for e in c['edits']): return (fail, ('D39', WHAT['D39']))
         return (fail, None)
     if code == 1:
         return (None, None) if exception_ok else (fail, ('D26', WHAT['D26']))
@@ -53,24 +53,42 @@ def conflicting(c, raw, clean):
 def judge_C01(c, raw, clean, raw_out): return [classify(c, E.oracle_C01(c), exception_ok=True)]
 def judge_C02(c, raw, clean, raw_out):
     f, applicable = E.oracle_C02(c, raw, clean)
-    if f and c.get('outside', 0) == 0 and len(c['edits']) > 1 and any(meta_like(e[0]) for e in c['edits']): return [(f, ('D39', WHAT['D39']))]
+    if f and c.get('outside', 0) == 0 and not c.get('nn') and in_virtual(c, raw): return [(f, ('D40', WHAT['D40']))]
     return [classify(c, f, meta_region=True)]
+def deleted_uids(din):
+    out = set()
+    def go(nodes, dead):
+        for n in nodes:
+            if n[0] == 'run' and dead: out.add(n[1])
+            elif n[0] in ('ins', 'del'): go(n[3], dead or n[0] == 'del')
+    from harness import absdoc as A
+    for p in A.paras(din): go(p['nodes'], False)
+    return out
 def in_virtual(c, raw):
-    """the FIRST occurrence of some target in the raw view (where the exact stage of the matcher finds it) overlaps virtual text -
-    comment / change metadata, wrappers, formatting markers, separators - according to the model's span map of the input"""
+    """the occurrence of some target that the exact stage of the matcher takes - the first one in the raw view that touches text of
+    the document itself and no tracked deletion (fixes D54, D55) - also covers virtual text (comment / change metadata, wrappers,
+    formatting markers, separators), or no occurrence can be taken and one of them lies in virtual text only; according to the
+    model's span map of the input"""
     from harness import core, absdoc as A
     key = id(c['din'])
     if c.get('_spans_key') != key:
         out = core.run_driver('nspans', ['(0 %s)' % A.sx_doc(c['din'])])[0]
+        dead = deleted_uids(c['din'])
         sp = []; off = 0
         for x in out.split(';'):
             if not x: continue
-            f = x.split(':'); txt = core.dec(f[0]); sp.append((off, off + len(txt), f[1] == '1')); off += len(txt)
+            f = x.split(':'); txt = core.dec(f[0]); sp.append((off, off + len(txt), f[1] == '1', f[1] == '1' and int(f[2]) in dead)); off += len(txt)
         c['_spans'] = sp; c['_spans_key'] = key
     for e in c['edits']:
-        if not e[0]: continue
-        i = raw.find(e[0])
-        if i >= 0 and any((not real) and a < i + len(e[0]) and i < b for a, b, real in c['_spans']): return True
+        t = e[0]
+        if not t: continue
+        occ = []; i = raw.find(t)
+        while i >= 0: occ.append(i); i = raw.find(t, i + 1)
+        def cov(i): return [s for s in c['_spans'] if s[0] < i + len(t) and i < s[1]]
+        taken = next((i for i in occ if any(s[2] for s in cov(i)) and not any(s[3] for s in cov(i))), None)
+        if taken is None:
+            if any(not any(s[2] for s in cov(i)) for i in occ): return True
+        elif any(not s[2] for s in cov(taken)): return True
     return False
 def judge_C08(c, raw, clean, raw_out):
     f = E.oracle_C08(c)
@@ -78,6 +96,14 @@ def judge_C08(c, raw, clean, raw_out):
     if f and c.get('outside', 0) == 0 and 'subset' in f and conflicting(c, raw, clean) and any(e[0] and raw.count(e[0]) == 0 for e in c['edits']): return [(f, ('D51', WHAT['D51']))]
     return [classify(c, f, meta_region=True)]
 def judge_C09(c, raw, clean, raw_out): return [classify(c, E.oracle_C09(c))]
+def emptied_story(c):
+    """some edit deletes the whole accepted text of a story of the input"""
+    from harness import absdoc as A
+    for st in c['din']['stories']:
+        T = '\n\n'.join(E.para_texts({'stories': [st]}, 'acc'))
+        if T.strip() and any(n == '' and t.strip() == T.strip() for t, n, cm, idx in c['edits']): return True
+    return False
+def norm_sep(s): return re.sub(r'(\n\n)+', '\n\n', s).strip('\n')
 def only_breaks(c):
     """some commented edit adds nothing but line breaks to its target"""
     return any(cm and n != t and re.sub(r'[\r\n]+', '', n) == t for t, n, cm, idx in c['edits'])
